@@ -9,6 +9,20 @@ TB = ('trusted: clang 14 parser/constant evaluator/CFG builder as driven by tool
       'flags -std=gnu++20 -DNDEBUG -DLOG_LEVEL=0 stand for the release build; ')
 
 CHECKS = {
+    'C13': dict(
+        category='proof',
+        text='Relational type system for the colour swap (rules/mirror.py): the WHITE and BLACK instantiations (or strongSide = c / !c) '
+             'are typed side by side and every expression is classified as equal, mirrored (by C++ type: square/bitboard/rank flipped, '
+             'colour/piece/castling swapped), negated, or unstable between a position and its mirror image. Decided: every one of the 17 '
+             'endgame evaluators and applicability tests, EndgameBase::score and PositionScorer::score (with setup, piece, pawn, king terms, '
+             'outposts and all bitboard helpers) returns an equal value; colour-dependent constants are mirror pairs by clang-evaluated value; '
+             'run-time colour choices are mirror pairs (x/flip(x), r/RANK_8-r, v/-v, msb/lsb); every table consulted with an absolute index is '
+             'symmetric or covariant by value; iterations over piece lists/bit sets are order independent; both colours are registered, '
+             'dispatched first-applicable, and mutually exclusive per type; elements picked by constant index are used symmetrically.',
+        design_ref='DESIGN.md §3 C13',
+        note=TB + 'A-C11: run-time geometry tables (KING_MASK, KNIGHT_MASK, LINES, FULL_LINES, slider attacks) are mirror-covariant; piece lists '
+                  'are unordered sets; four listed exceptions carry a hand argument each (checked to be still needed).',
+        technique='static: relational (two-run) type inference over the typed AST of both template instantiations; TABLE relations on evaluated constants'),
     'C01': dict(
         category='other',
         text='Partial: structural necessary conditions of exactness over the seven colour-generic generators, both '
